@@ -131,7 +131,12 @@ def make_session(rng, g, desc, tsdump=None):
     labels = list(range(g.sb.n_fs)) if origin == "api" else []
     slots = [{"op": "fs.slots", "fs": l} for l in labels]
     marks = {}
-    # one serialisation before the first query (queries must not leave anything behind that a later serialisation shows)
+    # observations before anything is serialised (only a part of the scenarios: the queries of A0 already touch the indexes)
+    if rng.random() < 0.5:
+        marks["A0"] = (len(ops), len(ops) + len(obs) + len(slots))
+        ops += obs + slots
+    # one serialisation before the first query of the other scenarios (queries must not leave anything behind that a later
+    # serialisation shows)
     ops.append({"op": "raw.xmi", "h": h, "pretty": False, "sink": "none"})
     ops.append({"op": "raw.json", "h": h, "mode": "none", "pretty": False, "ascii": False, "sink": "none"})
     marks["A"] = (len(ops), len(ops) + len(obs) + len(slots))
@@ -261,6 +266,14 @@ def run(ctx, out, budget):
                 j = next(j for j in range(len(B)) if common.canon(B[j]) != common.canon(C[j]))
                 out.oracle_failures.append({"scenario": scs, "op_index": c0 + j, "what": "serialising changed what a later query/dump returns",
                                             "expected": B[j], "actual": C[j]})
+            if "A0" in marks:
+                z0, z1 = marks["A0"]
+                A0 = [strip_xid(sessions.sort_entries(x)) for x in io_[z0:z1]]
+                A1 = [strip_xid(x) for x in A]
+                if common.canon(A0) != common.canon(A1):
+                    j = next(j for j in range(len(A0)) if common.canon(A0[j]) != common.canon(A1[j]))
+                    out.oracle_failures.append({"scenario": scs, "op_index": a0 + j, "what": "the first serialisation changed more than missing ids",
+                                                "expected": A0[j], "actual": A1[j]})
             A2 = [strip_xid(x) for x in A]
             B2 = [strip_xid(x) for x in B[:-1]]
             if common.canon(A2) != common.canon(B2):
